@@ -722,7 +722,7 @@ func init() {
 		Rule: "random source trees (adversarial names incl. a 255-byte name, files around the 32KiB boundary, symlinks relative/absolute/dangling/looping, fifos, char and block devices, a few sockets, hard-link groups of regular files and of fifos/char devices, in 1 tree of 6 a hard-link group of 2-3 socket names and in 1 of 6 a hard-link group of 2-3 symlink names (dangling, relative, absolute targets; same or different directories), setuid/setgid/sticky, owners {0,1234,65534}, ns/negative/far-future mtimes, user.* xattrs on files and dirs, trusted.* xattrs on symlinks, random metadata on the source root itself, 1/8 of the directories without any execute bit, up to two extra symlinks whose absolute or relative target is an existing entry) are created on disk and copied with fs.Copy into an empty destination root; " +
 			"source = {whole tree, one sub-directory, one file/fifo/device/socket, one symlink}; destination argument = {existing root, new nested path n1/n2/leaf, new nested directory n1/n2/}; flags = FollowLinks on/off, CopyDirContents on/off (directory sources), process umask {0,022,077}; in 1/8 of the cases (xattr fault variant) the destination root is a fresh directory on a file system that rejects oversized xattr values (probed at run time: /var/tmp, /tmp, /root or $VERIF_C13_XFAULT_BASE; the source stays on tmpfs), 1-3 entries carry a 4500/8000/20000-byte value of a key K in {user.xf, trusted.xf, user.k1}, at least two other files/dirs/symlinks (and sometimes the source root) carry the SAME key with 0-40 byte values at names sorting before and after the oversized ones, and the handler is AllowXAttrErrors or a recording tolerant handler (7/8) or an aborting one (1/8); " +
 			"options drawn independently: WithChown (uid,gid from {0,1,1234,65534,4000000000}), Mode (octal incl. special bits) or ModeStr (symbolic: 20 classic forms and a grammar of 1-3 clauses of who-lists x 1-2 operations + - = x subsets of rwx, X (not after '-'), s, t (with who 'a', or alone as +t/-t), permission copies u/g/o), Utime (ns, negative, far future; in 1/12 of the Utime cases an instant OUTSIDE the window an int64 nanosecond count can hold: the two instants one nanosecond outside it, years 2262-2400, years 1500-1677, random second and nanosecond), XAttrErrorHandler {nil, allow, recording-strict, recording-tolerant}, change notifier on 7/8 of the cases. " +
-			"Oracle: independent lstat/readlink/listxattr/bytes snapshot of the source, re-rooted at the landing path, with the option overrides applied, compared with the snapshot of the destination (type, bytes, symlink target, mode incl. special bits, uid/gid, ns mtime of files, symlinks and directories, xattrs, rdev, link groups recomputed from source inodes inside the copied subset); symbolic modes are evaluated by /bin/chmod on scratch nodes of the same type and original mode; directories created above the target must carry the requested owner and timestamp; when the landing path is the image of a source directory but existed before its contents were copied (the destination root, or a path created with MkdirAll for CopyDirContents / a trailing-slash destination) that directory's own ns mtime must equal the source directory's (or the requested Utime) - nothing else of it is judged; for a requested time outside the int64-ns window every copied entry (files, dirs, symlinks, specials), every directory created above the target and the landing directory are read with lstat as (sec, nsec) pairs and must equal the pair an independent utimensat(AT_SYMLINK_NOFOLLOW) of the requested (sec, nsec) leaves on a scratch node of the same destination file system (file-system clamping is thereby tolerated; the mtime columns of the generic diff are masked for these cases; a Copy that refuses such a time is counted, not judged); an xattr (entry, key) may be missing in the copy only if the recording handler was called for exactly that destination path and key, or - AllowXAttrErrors - an independent lsetxattr of that key/value on a scratch node of the destination file system is refused (further keys of the same entry after such a tolerated failure are counted, not judged); every handler call must name a copied destination path and carry an error; the notifier must be called exactly once per non-directory with its leading-slash normalised destination path (calls for directories are counted, not judged). " +
+			"Oracle: independent lstat/readlink/listxattr/bytes snapshot of the source, re-rooted at the landing path, with the option overrides applied, compared with the snapshot of the destination (type, bytes, symlink target, mode incl. special bits, uid/gid, ns mtime of files, symlinks and directories, xattrs, rdev, link groups recomputed from source inodes inside the copied subset); symbolic modes are evaluated by /bin/chmod on scratch nodes of the same type and original mode; directories created above the target must carry the requested owner and timestamp; when the landing path is the image of a source directory but existed before its contents were copied (the destination root, or a path created with MkdirAll for CopyDirContents / a trailing-slash destination) that directory's own ns mtime must equal the source directory's (or the requested Utime) - nothing else of it is judged; for a requested time outside the int64-ns window every copied entry (files, dirs, symlinks, specials), every directory created above the target and the landing directory are read with lstat as (sec, nsec) pairs and must equal the pair an independent utimensat(AT_SYMLINK_NOFOLLOW) of the requested (sec, nsec) leaves on a scratch node of the same destination file system (file-system clamping is thereby tolerated; the mtime columns of the generic diff are masked for these cases; a Copy that refuses such a time is counted, not judged); an xattr (entry, key) may be missing in the copy only if the recording handler was called for exactly that destination path and key, or - AllowXAttrErrors - an independent lsetxattr of that key/value on a scratch node of the destination file system is refused (a tolerated failure of one key does not excuse the other keys of the entry); every handler call must name a copied destination path and carry an error; the notifier must be called exactly once per non-directory with its leading-slash normalised destination path (calls for directories are counted, not judged). " +
 			"non-trivial = Copy returned nil, at least one entry was copied and compared, and the copied subset holds a link group, special file, special mode bit, xattr or symlink, or at least one of chown/mode/modestr/utime is set; distinct by (tree, variant, destination form, option values) fingerprint",
 		Assumptions: []string{
 			"runs as root; source on tmpfs under /dev/shm (mknod, user.* and trusted.* xattrs, values up to 20000 bytes); outside the xattr fault variant the destination is on the same tmpfs and no xattr operation fails",
@@ -1480,9 +1480,8 @@ func c13Run(c *core.Ctx) *core.Result {
 	// tolerated: the recording handler was called with that destination path
 	// and key, or (non-recording AllowXAttrErrors) an independent lsetxattr of
 	// that key/value on a scratch node of the destination file system is
-	// refused. One more shape is not judged and counted apart: the remaining
-	// keys of the SAME entry after a tolerated failure (copyXAttrs returns
-	// after the first failing key of an entry). Every other xattr is demanded.
+	// refused. Every other xattr is demanded, also the remaining keys of an
+	// entry after a tolerated failure of one of them.
 	called := map[xehCall]bool{}   // (dst, key)
 	calledDst := map[string]bool{} // dst
 	for _, cl := range xehCalls {
@@ -1541,7 +1540,9 @@ func c13Run(c *core.Ctx) *core.Result {
 				r.Count("xattr_pairs_missing_and_tolerated", 1)
 				delete(e.Xattrs, k)
 			case anyTolerated:
-				r.Count("xattr_pairs_missing_after_tolerated_failure_on_same_entry_not_judged", 1)
+				// the tolerated failure of another key of this entry does not
+				// excuse this one
+				r.ViolateD("xattr-dropped-after-tolerated-failure", sample, "%q: xattr %q (%d bytes) is missing in the copy; only the failure of another attribute of this entry was reported to/tolerated by the xattr error handler (handler=%s)", e.Path, k, len(v), p.Xeh)
 				delete(e.Xattrs, k)
 			default:
 				r.ViolateD("xattr-lost-without-tolerated-failure", sample, "%q: xattr %q (%d bytes) is missing in the copy although no failure of this entry was reported to/tolerated by the xattr error handler (handler=%s, %d handler calls in this copy)", e.Path, k, len(v), p.Xeh, len(xehCalls))
